@@ -14,8 +14,8 @@ OWN = {'ClientGetsPrefix': 'C09', 'ServerGetsPrefix': 'C09', 'NoLoss': 'C09', 'N
 REJECT_OWNER = {'cli.read.ret': 'C09', 'h.read.ret': 'C09', 'c.dispatch': 'C09', 'v.dispatch': 'C09', 'w.frame': 'C09', 'h.start': 'C09',
                 'api.established': 'C09', 'c.eofsweep': 'C10', 'v.eof': 'C10', 'v.done': 'C10', 'api.close': 'C10', 'api.close.ret': 'C10'}
 
-def consts(streams=(1,), push=2, send=1, poll=False, cut=True, close=True, dev=()):
-    return {'Streams': set(streams), 'MaxPush': push, 'MaxSend': send, 'Poll': poll, 'AllowCut': cut, 'AllowClose': close, 'Dev': set(dev)}
+def consts(streams=(1,), push=2, send=1, poll=False, cut=True, close=True, dev=(), bad=0):
+    return {'Streams': set(streams), 'MaxPush': push, 'MaxSend': send, 'MaxBad': bad, 'Poll': poll, 'AllowCut': cut, 'AllowClose': close, 'Dev': set(dev)}
 
 def model_check(tag, c, timeout=900, live=False):
     wd = scratch('smc_' + tag)
@@ -30,7 +30,7 @@ def to_steps(acts):
     steps = []
     for name, args in acts:
         a = [argval(x) for x in args]
-        if name in ('Open', 'Established', 'CliWrite', 'CliRead', 'CliClose', 'CloseSend', 'SrvAck', 'HandlerStart', 'Push', 'SrvRead', 'HandlerReturn'):
+        if name in ('Open', 'Established', 'CliWrite', 'CliWriteFail', 'CliRead', 'CliClose', 'CloseSend', 'SrvAck', 'HandlerStart', 'Push', 'SrvRead', 'HandlerReturn'):
             steps.append({'a': name, 'c': a[0]})
         elif name in ('ReaderFrame', 'CliSweep', 'SrvFrame', 'SrvEOF', 'SrvTeardown', 'Cut'):
             steps.append({'a': name})
@@ -70,7 +70,7 @@ def replay(schedules, tag):
     return (os.path.join(wd, 'trace.ndjson'), json.load(open(os.path.join(wd, 'res.json'))), schedules), crashes
 
 def trace_cfg(maxs):
-    c = consts(streams=range(1, maxs + 1), push=100000, send=100000, poll=False)
+    c = consts(streams=range(1, maxs + 1), push=100000, send=100000, poll=False, bad=100000)
     return cfg_text('TrSpec', c, TRACE_INVS, PROPS, 'CONSTRAINT TrHigh\nPOSTCONDITION TrAccepted')
 
 def validate(tracefile, tag, names, max_findings=5):
